@@ -93,7 +93,7 @@ func runC01(r *core.Run) {
 			}
 		}
 	})
-	byteWalk(r, func(worker int, fam string, b []byte) {
+	byteWalk(r, 0, func(worker int, fam string, b []byte) {
 		in := &Input{Family: fam, Bytes: b, Class: "bytewalk"}
 		for _, p := range adapt.ByFamily(fam) {
 			c01Check(r, worker, p, in)
